@@ -1072,7 +1072,18 @@ func checkAuthorPackage(t *rapid.T, l *layout, w *world, m *shardModel, f *shard
 	wantPub := crypto.FromECDSA(flipPub.ExportECDSA())
 
 	data := mempool.EncryptPrivateKeysPackage(flipPub, flipPriv, pubKeys)
-	w.pool.VerifC16PutKeys(author.Addr, &types.PublicFlipKey{Key: wantPub}, &types.PrivateFlipKeysPackage{Data: data})
+	// arrival order: the package may arrive after somebody has already looked one of the author's flips up
+	switch order := rapid.SampledFrom([]string{"package-first", "lookup-before-package", "lookup-before-package"}).Draw(t, "arrivalOrder"); order {
+	case "package-first":
+		w.pool.VerifC16PutKeys(author.Addr, &types.PublicFlipKey{Key: wantPub}, &types.PrivateFlipKeysPackage{Data: data})
+	default:
+		w.pool.VerifC16PutPublicKey(author.Addr, &types.PublicFlipKey{Key: wantPub})
+		if early := w.pool.GetEncryptedPrivateFlipKey(rapid.IntRange(0, len(pubKeys)).Draw(t, "earlySlot"), author.Addr); len(early) != 0 {
+			fail("a key is handed out before the author's package has arrived")
+		}
+		w.pool.VerifC16PutPackage(author.Addr, &types.PrivateFlipKeysPackage{Data: data})
+		evid.Count("crypto.order.lookup-before-package")
+	}
 	evid.Count("crypto.packages")
 	evid.CountN("crypto.package-slots", len(pubKeys))
 
